@@ -566,6 +566,11 @@ func (mklines *MkLines) CheckUsedBy(relativeName PkgsrcPath) {
 	}
 
 	paras := mklines.SplitToParagraphs()
+	if len(paras) == 0 {
+		// The file consists of empty lines only,
+		// there is no paragraph below which the line could be added.
+		return
+	}
 
 	expected := "# used by " + relativeName.String()
 	found := false
